@@ -14,7 +14,15 @@ HARNESSES = {
     'K-le': dict(path='frame::header::verif_kani::k_le', fn='k_le', bounded=False, bound='all u16/u32/u64 values; loops bounded by the byte width'),
     'K-getrange': dict(path='mem::rolling_buffer::verif_kani::k_getrange', fn='k_getrange', bounded=True, bound='ring buffers of <= 3 bytes (capacity 4) at every rotation (0..=3), all RangeBounds kinds with symbolic bounds'),
     'K-p2i': dict(path='mem::queue::verif_kani::k_p2i', fn='k_p2i', bounded=True, bound='<= 4 record metas with symbolic strictly increasing positions, symbolic searched position'),
-    'K-range': dict(path='mem::queue::verif_kani::k_range', fn='k_range', bounded=True, bound='2 records x 1-byte payloads at symbolic positions, symbolic Included/Excluded/Unbounded bounds'),
+    'K-range-ii': dict(path='mem::queue::verif_kani::k_range_ii', fn='k_range_ii', bounded=True, bound='2 records x 1-byte payloads at symbolic positions; bound kinds ii with symbolic values'),
+    'K-range-ie': dict(path='mem::queue::verif_kani::k_range_ie', fn='k_range_ie', bounded=True, bound='2 records x 1-byte payloads at symbolic positions; bound kinds ie with symbolic values'),
+    'K-range-iu': dict(path='mem::queue::verif_kani::k_range_iu', fn='k_range_iu', bounded=True, bound='2 records x 1-byte payloads at symbolic positions; bound kinds iu with symbolic values'),
+    'K-range-ei': dict(path='mem::queue::verif_kani::k_range_ei', fn='k_range_ei', bounded=True, bound='2 records x 1-byte payloads at symbolic positions; bound kinds ei with symbolic values'),
+    'K-range-ee': dict(path='mem::queue::verif_kani::k_range_ee', fn='k_range_ee', bounded=True, bound='2 records x 1-byte payloads at symbolic positions; bound kinds ee with symbolic values'),
+    'K-range-eu': dict(path='mem::queue::verif_kani::k_range_eu', fn='k_range_eu', bounded=True, bound='2 records x 1-byte payloads at symbolic positions; bound kinds eu with symbolic values'),
+    'K-range-ui': dict(path='mem::queue::verif_kani::k_range_ui', fn='k_range_ui', bounded=True, bound='2 records x 1-byte payloads at symbolic positions; bound kinds ui with symbolic values'),
+    'K-range-ue': dict(path='mem::queue::verif_kani::k_range_ue', fn='k_range_ue', bounded=True, bound='2 records x 1-byte payloads at symbolic positions; bound kinds ue with symbolic values'),
+    'K-range-uu': dict(path='mem::queue::verif_kani::k_range_uu', fn='k_range_uu', bounded=True, bound='2 records x 1-byte payloads at symbolic positions; bound kinds uu with symbolic values'),
     'K-mrs': dict(path='record::verif_kani::k_mrs', fn='k_mrs', bounded=True, bound='<= 2 payloads of <= 1 byte each, symbolic first position'),
 }
 
